@@ -714,7 +714,7 @@ fn gen_composition(u: &Universe, r: &mut Rng, big: bool) -> (Vec<AOp>, Vec<Optio
                 // an interface with one that `use`s it sends TypeEncoder::import_deps into unbounded recursion
                 // (stack overflow, reported under C01; witness `imp 10 10;imp 28 9`), which would kill this process.
                 let own = nidx(PKG_KINDS[k - 6].1);
-                let mut c = vec![own, own, 17, 29];
+                let mut c = vec![own, own, own, own, own, 17, 29];
                 if k == 6 || k == 7 { c.extend([10usize, 11, 28]); }
                 if k == 8 { c.push(14); }
                 *r.pick(&c)
@@ -742,7 +742,8 @@ fn gen_composition(u: &Universe, r: &mut Rng, big: bool) -> (Vec<AOp>, Vec<Optio
         }
         else if c < 94 && !g.nodes.is_empty() {
             let n = r.below(g.nodes.len() as u64) as usize;
-            g.try_op(AOp::Export(n, *r.pick(EXPORT_NAMES)));
+            // a definition under an additional name is a known finding: keep it rare so that most cases are checked strictly
+            if g.nodes[n].1 != 'D' || r.chance(1, 8) { g.try_op(AOp::Export(n, *r.pick(EXPORT_NAMES))); }
         }
         else if !g.nodes.is_empty() {
             let n = r.below(g.nodes.len() as u64) as usize;
